@@ -81,6 +81,7 @@ let mop_of_json (j : json) : mop =
   | "set_pref" -> MSetPref (jbytes (jfield j "key"), jv_of_json (jfield j "value"), jz (jfield j "ts"))
   | "acc_encrypt" -> MAccEncrypt (jnat (jfield j "i"), jbytes (jfield j "pw"), rnd_of j)
   | "acc_decrypt" -> MAccDecrypt (jnat (jfield j "i"), jbytes (jfield j "pw"))
+  | "start" -> MStart (jz (jfield j "ts"), rnd_of j, jn (jfield j "pid"))
   | "touch_channel" -> MTouchChannel (jnat (jfield j "i"))
   | "set_cipher" -> MSetCipher (jnat (jfield j "i"), jbytes (jfield j "seed"), jbytes (jfield j "pks"))
   | k -> raise (Model_error ("unknown op " ^ k))
@@ -153,6 +154,9 @@ let () = serve (fun fn req ->
   | "better_decrypt" -> of_res of_bytes (better_aes_decrypt prims (jbytes (jfield req "pw")) (jbytes (jfield req "value")))
   | "pack" -> of_res of_bytes (pack prims (jbytes (jfield req "pw")) (jbytes (jfield req "iv")) (!state).m_w)
   | "unpack" -> of_res of_bytes (unpack prims (jbytes (jfield req "pw")) (jbytes (jfield req "data")))
+  | "merge_payload" ->
+      let pwd = match jfield req "pw" with JNull -> None | x -> Some (jbytes x) in
+      of_res of_bytes (merge_payload prims pwd (jbytes (jfield req "data")))
   | "to_json" -> of_bytes (to_json prims (!state).m_w)
   | "save_preview" ->
       (* the bytes Wallet.save would write now, without changing the state *)
@@ -162,6 +166,13 @@ let () = serve (fun fn req ->
       let t = fs_of_req req in
       let f = if jbool (jfield req "fallback") then storage_write_fallback else storage_write in
       of_list fsop_json (f (jbytes (jfield req "path")) (jn (jfield req "pid")) (jbytes (jfield req "data")) t)
+  | "two_writers" ->
+      let t = fs_of_req req in
+      let path = jbytes (jfield req "path") in
+      let t' = two_writers (jn (jfield req "umask")) path (jn (jfield req "pid")) (jn (jfield req "pid_b"))
+                 (jbytes (jfield req "data")) (jbytes (jfield req "data_b"))
+                 (jnat (jfield req "k")) (jnat (jfield req "n")) (jnat (jfield req "kb")) t in
+      JObj [("file", file_json (t' path))]
   | "crash" ->
       let t = fs_of_req req in
       let path = jbytes (jfield req "path") in
